@@ -5,4 +5,4 @@ From Pika Require Import Base.Conc Gen.GenMpi Model.Mpi.
 Extraction Language OCaml.
 Extraction "m.ml" mstep m_init m_locals m_run compact compact_inplace take_nth calls regs nonnull somes
   decode_mode single_threaded tm_step tm_run tm_run_cur t_init all_modes p_run p_step balanced
-  max_poll_requests trigger_guarded hm_default_mode.
+  max_poll_requests trigger_guarded hm_default_mode sstep s_submit s_locals in_callback.
